@@ -119,3 +119,27 @@ def root_of(prog, b):
     while b is not None and b.kind == "Closure":
         b = prog.bodies.get(b.d.get("root"))
     return b
+
+
+def effectively_public(prog, path):
+    """is the item nameable from outside its crate: `pub` itself with every ancestor module `pub`, or re-exported `pub`
+    from an effectively public module"""
+    def mod_public(mpath):
+        parts = mpath.split("::")
+        for i in range(2, len(parts) + 1):
+            m = prog.mods.get("::".join(parts[:i]))
+            if m is not None and m["vis"] != "pub":
+                return False
+        return True
+    item = None
+    for f in prog.fns.values():
+        if f["path"] == path:
+            item = f
+    if item is None:
+        return None
+    if item["vis"] == "pub" and mod_public(path.rsplit("::", 1)[0]):
+        return True
+    for u in prog.uses:
+        if u["target"] == path and u["vis"] == "pub" and mod_public(u["mod"]):
+            return True
+    return False
